@@ -65,8 +65,8 @@ def graph_lit(proto):
             raise OutOfScope("model with local functions / sparse initializers")
         ins, inits, outs, nodes = [i.name for i in g.input], [i.name for i in g.initializer], [o.name for o in g.output], g.node
     else:
-        if proto.attribute or proto.attribute_proto:
-            raise OutOfScope("function with attribute parameters")
+        if proto.attribute_proto:
+            raise OutOfScope("function with attribute parameters that have default values")
         ins, inits, outs, nodes = list(proto.input), [], list(proto.output), proto.node
     return f"(Graph {clist(ins, cstr)} {clist(inits, cstr)} {clist([node_lit(n) for n in nodes])} {clist(outs, cstr)})"
 
@@ -235,6 +235,9 @@ def stmts_lit(body, opsets, count):
     return out
 
 
+LAST_APARAMS = []  # attribute parameters of the function parsed last (compared with the proto by observe)
+
+
 def parse_program(code):
     """-> (Coq `func` literal, skipped-initializer parameter names of make_model, number of statements)"""
     tree = ast.parse(code)
@@ -263,7 +266,12 @@ def parse_program(code):
         body = body[1:]
     count = [0]
     stmts = stmts_lit(body, opsets, count)
-    lit = (f"{{| f_name := {cstr(fd.name)}; f_tparams := {clist([x.arg for x in a.args], cstr)}; f_aparams := []; "
+    def is_attr(x):
+        t = ast.unparse(x.annotation) if x.annotation is not None else ""
+        return t in ("int", "float", "str", "bool") or t.startswith("Sequence[")
+
+    LAST_APARAMS[:] = [x.arg for x in a.args if is_attr(x)]
+    lit = (f"{{| f_name := {cstr(fd.name)}; f_tparams := {clist([x.arg for x in a.args if not is_attr(x)], cstr)}; f_aparams := []; "
            f"f_body := {clist(stmts)} |}}")
     return lit, skipped, count[0]
 
@@ -446,6 +454,9 @@ def observe(case, opts):
         lit, skipped, nst = parse_program(code)
     except SyntaxError as e:
         return {"func": "SYNTAX", "code": code, "statements": 0, "raised": f"SyntaxError: {e}"}
+    want = [] if isinstance(case["proto"], onnx.ModelProto) else list(case["proto"].attribute)
+    if list(LAST_APARAMS) != want:
+        raise ParseError(f"attribute parameters on the def line {list(LAST_APARAMS)!r}, in the proto {want!r}")
     return {"func": f"(Some ({lit}, {clist(skipped, cstr)}))", "code": code, "statements": nst, "raised": None}
 
 
@@ -457,6 +468,15 @@ def coq_terms(case, opts, prelude=None, tag="0"):
     seq = model_rename_sequence(proto, opts) if is_model else M.renamer_sequence(proto)
     ren = M.rename_term(proto, opts["rename"], seq, prelude, tag)
     pre = clean if (is_model and not VR.detect()["sig_renamed"]) else ren
+    if not is_model and len(proto.attribute) and prelude is not None:
+        # _handle_attrname_conflict (Export/AttrNames.v): the def line keeps the base names, the body uses the alternates
+        from types import SimpleNamespace as NS
+        shim = NS(graph=NS(initializer=[], node=proto.node, output=[NS(name=o) for o in proto.output], input=[]))
+        seq2 = model_rename_sequence(shim, opts)
+        attrs = clist(list(proto.attribute), cstr)
+        prelude.append(f"Definition au{tag} : list string := Eval vm_compute in (map {ren} {clist(seq, cstr)}).")
+        prelude.append(f"Definition am{tag} := Eval vm_compute in (attr_map {ren} {attrs} au{tag} {clist(seq2, cstr)}).")
+        ren = f"(attr_apply {ren} {attrs} am{tag})"
     # C13_01: a model graph is translated inside a remapping scope, like a function body
     return pre, ren, f"(cleanup kwlist {cstr(raw_name)})", ivals_lit(proto), graph_lit(proto), cbool(not is_model or VR.detect()["model_scope"])
 
@@ -486,17 +506,23 @@ def coq_body(items):
         lines.append(f"Definition h{k} : bool := {OKB + ' kwlist ' + pre + ' ' + ren + ' ' + infun + ' true iv' + str(k) + ' g' + str(k) if plain else 'false'}.")
         lines.append(f"Definition hn{k} : bool := {OKB + ' kwlist ' + pre + ' ' + ren + ' ' + infun + ' false iv' + str(k) + ' g' + str(k) if plain else 'false'}.")
         lines.append(f"Definition rt{k} : bool * bool * bool := {'rt_class m' + str(k) if plain else '(false, false, false)'}.")
+        skip_only = OKB is not None and opts["skip_initializers"] and not opts["inline_const"]
+        lines.append(f"Definition hs{k} : bool := {'nested_skip_ops_okb kwlist ' + pre + ' ' + ren + ' ' + infun + ' true ' + use_ops + ' iv' + str(k) + ' g' + str(k) if skip_only else 'false'}.")
+        ops_only = OKB is not None and opts["use_operators"] and not (opts["inline_const"] or opts["skip_initializers"])
+        lines.append(f"Definition ho{k} : bool := {'nested_ops_okb kwlist ' + pre + ' ' + ren + ' ' + infun + ' true ' + use_ops + ' iv' + str(k) + ' g' + str(k) if ops_only else 'false'}.")
     n = len(items)
     lines.append(f"Eval vm_compute in (disagreeing_cf 0 {clist([f'(m{k}, o{k})' for k in range(n)])}).")
     lines.append(f"Eval vm_compute in {clist([f'h{k}' for k in range(n)])}.")
     lines.append(f"Eval vm_compute in {clist([f'is_some m{k}' for k in range(n)])}.")
     lines.append(f"Eval vm_compute in {clist([f'hn{k}' for k in range(n)])}.")
     lines.append(f"Eval vm_compute in {clist([f'rt{k}' for k in range(n)])}.")
+    lines.append(f"Eval vm_compute in {clist([f'hs{k}' for k in range(n)])}.")
+    lines.append(f"Eval vm_compute in {clist([f'ho{k}' for k in range(n)])}.")
     return "\n".join(lines)
 
 
 OKB = "nested_okb"
-REQUIRES = ["OV.Gen.ExportTables", "OV.Export.Cleanup", "OV.Export.Unique", "OV.Graph.Syntax", "OV.Script.Syntax", "OV.Export.Emit", "OV.Export.EmitCF", "OV.Export.RoundTripClass"]
+REQUIRES = ["OV.Gen.ExportTables", "OV.Export.Cleanup", "OV.Export.Unique", "OV.Graph.Syntax", "OV.Script.Syntax", "OV.Export.Emit", "OV.Export.EmitCF", "OV.Export.RoundTripClass", "OV.Export.EmitOpts", "OV.Export.AttrNames"]
 
 
 # ----------------------------------------------------------------------------------------------- hand-made nested models
@@ -632,6 +658,48 @@ def _feature_protos():
                         [N("Add", ["acc", "x"], ["acc2"])] + cond_nodes(src="acc2", out="c_raw", thr=50.0) + [N("Not", ["c_raw"], ["c_out"])], "body",
                         [_vi("it", TP.INT64, []), _vi("c_in", TP.BOOL, []), _vi("acc")], [_vi("c_out", TP.BOOL, []), _vi("acc2")])),
                     N("Identity", ["accf"], ["y"])], **({"ins": ("x", "n")} if kind is function else {"in_extra": nin}))
+    # a Loop that mentions neither stop mechanism (never terminates; the exporter must refuse it): tie only, never run
+    for kind in (function, model):
+        yield kind("nostop:no-trip-count-no-condition" + (":in-model-graph" if kind is model else ""),
+                   [N("Identity", ["x"], ["x0"]), N("Loop", ["", "", "x0"], ["accf"], body=for_body()), N("Identity", ["accf"], ["y"])])
+    # ---- session 6 families -----------------------------------------------------------------------------------------
+    # values named like the keyword arguments printed on the same line (`keepdims = opset.ReduceSum(x, keepdims=1)`)
+    yield model("names:value-named-like-node-attribute", cond_nodes() + [
+        if_node("c", ["axis"], [N("ReduceSum", ["x"], ["keepdims"], keepdims=1), N("Add", ["x", "keepdims"], ["to"])], ["to"],
+                [N("Cast", ["x"], ["value"], to=1)], ["value"]), N("Identity", ["axis"], ["y"])])
+    # names that collide after the clean-up, next to names that look like the suffixed / shortened results
+    yield model("names:collide-after-cleanup-and-suffix", cond_nodes() + [
+        N("Neg", ["x"], ["a.b"]), N("Abs", ["x"], ["a_b"]), N("Relu", ["x"], ["a_b_0"]), N("Tanh", ["x"], ["a:b"]), N("Identity", ["x"], ["v1"]),
+        N("Sigmoid", ["x"], ["v1_0"]),
+        if_node("c", ["r"], [N("Sub", ["a.b", "a_b"], ["t1"]), N("Add", ["t1", "a_b_0"], ["t2"])], ["t2"],
+                [N("Mul", ["a:b", "v1"], ["e1"]), N("Add", ["e1", "v1_0"], ["e2"])], ["e2"]), N("Identity", ["r"], ["y"])])
+    # a 0-d constant and a shape-[1] constant of the same value, FLOAT and INT64, in rank-sensitive positions
+    g = h.make_graph([N("Constant", [], ["s"], value=f32(2.0)), N("Constant", [], ["v"], value=f32([2.0])),
+                      N("Constant", [], ["si"], value=i64(1)), N("Constant", [], ["vi"], value=i64([1])),
+                      N("Mul", ["x", "s"], ["a"]), N("Mul", ["a", "v"], ["b"]), N("Gather", ["b", "si"], ["g0"]), N("Gather", ["b", "vi"], ["g1"]),
+                      N("Unsqueeze", ["x", "vi"], ["u"]), N("Identity", ["b"], ["y"])] , "g", [_vi("x")],
+                     [_vi("y"), _vi("g0", TP.FLOAT, []), _vi("g1", TP.FLOAT, [1]), _vi("u", TP.FLOAT, [3, 1])])
+    yield "consts:scalar-vs-one-element-vector", h.make_model(g, opset_imports=[h.make_opsetid("", G.OPSET)], ir_version=9), "model"
+    # nan, inf, -inf, -0.0 as 0-d and as vector constants; x / -0.0 tells the two zeros apart
+    yield model("consts:nonfinite-and-negative-zero", cond_nodes() + [
+        N("Constant", [], ["k.nan"], value=f32(np.nan)), N("Constant", [], ["k.inf"], value=f32(np.inf)), N("Constant", [], ["k.ninf"], value=f32(-np.inf)),
+        N("Constant", [], ["k.nz"], value=f32(-0.0)), N("Constant", [], ["k.v"], value=f32([np.nan, 1.0, -0.0])), N("Constant", [], ["k.z"], value=f32([-0.0, 0.0])),
+        N("Max", ["x", "k.ninf"], ["m1"]), N("Min", ["m1", "k.inf"], ["m2"]), N("Div", ["m2", "k.nz"], ["d1"]),
+        if_node("c", ["r"], [N("Add", ["d1", "k.v"], ["t1"]), N("Pow", ["k.nz", "x"], ["t0"]), N("Add", ["t1", "t0"], ["t2"])], ["t2"],
+                [N("Mul", ["x", "k.nan"], ["e0"]), N("ReduceSum", ["k.z"], ["e1"], keepdims=0), N("Div", ["x", "e1"], ["e2"]), N("Add", ["e0", "e2"], ["e3"])], ["e3"]),
+        N("Identity", ["r"], ["y"])])
+    # an If inside a Loop inside an If, every level reading outer values whose names need the clean-up
+    deep_body = h.make_graph(
+        [N("Constant", [], ["one"], value=i64(1)), N("Add", ["k", "one"], ["k+1"])] + cond_nodes(src="acc", out="big", thr=4.0, thr_name="thr.in") +
+        [if_node("big", ["acc:2"], [N("Sub", ["acc", "outer.abs"], ["t-1"])], ["t-1"], [N("Add", ["acc", "1st"], ["e 1"]), N("Mul", ["e 1", "w.0"], ["e 2"])], ["e 2"]),
+         N("Constant", [], ["lim"], value=i64(3)), N("Less", ["k+1", "lim"], ["c.out"])], "body",
+        [_vi("it", TP.INT64, []), _vi("c.in", TP.BOOL, []), _vi("k", TP.INT64, []), _vi("acc")],
+        [_vi("c.out", TP.BOOL, []), _vi("k+1", TP.INT64, []), _vi("acc:2")])
+    yield model("deep:if-in-loop-in-if:outer-names-need-cleanup",
+                pre + [N("Abs", ["x"], ["outer.abs"]), N("Neg", ["x"], ["1st"])] + cond_nodes() + [
+                    if_node("c", ["res/0"], [N("Loop", ["", "c0", "k0c", "x0"], ["k.f", "acc.f"], body=deep_body)], ["acc.f"],
+                            [N("Mul", ["outer.abs", "1st"], ["e.2"]), N("Add", ["e.2", "w.0"], ["e.3"])], ["e.3"]),
+                    N("Identity", ["res/0"], ["y"])], inits=[f32([1.0, 2.0, 3.0], "w.0")])
     # operator form and inlined literals inside bodies: a negative literal as the base of a power
     yield model("operators:negative-literal-power-base", [N("Constant", [], ["m2"], value=f32(-2.0)), N("Pow", ["m2", "x"], ["p"]), N("Identity", ["p"], ["y"])])
     yield model("operators:in-branches", cond_nodes() + [if_node("c", ["r"], [N("Constant", [], ["k1"], value=f32(2.0)), N("Mul", ["x", "k1"], ["t1"])], ["t1"],
@@ -645,7 +713,8 @@ def feature_cases():
     for name, proto, kind in _feature_protos():
         has_n = ("n" in list(proto.input)) if kind == "function" else any(i.name == "n" for i in proto.graph.input)
         feeds = [dict({"x": v}, **({"n": np.array(k, dtype=np.int64)} if has_n else {})) for v, k in zip(feeds_x, (3, 0, 1, 2))]
-        case = {"id": "cf:" + name, "kind": kind, "origin": "cf-features", "profile": "cf-features", "proto": proto, "feeds": feeds, "large_inits": []}
+        case = {"id": "cf:" + name, "kind": kind, "origin": "cf-features", "profile": "cf-features", "proto": proto, "feeds": feeds, "large_inits": [],
+                "tie_only": name.startswith("nostop:")}
         if kind == "model":
             onnx.checker.check_model(proto, full_check=True)
             case["large_inits"] = [(i.name, nh.to_array(i)) for i in proto.graph.initializer if int(np.prod(list(i.dims) or [1])) > 4]
@@ -661,4 +730,100 @@ def nested_cases(rng, n_models, n_funcs):
     models, r1 = G.random_models(rng, n_models, profiles=["clean", "clean", "consts", "collide", "forcond", "swap", "clean", "forloop"])
     funcs, r2 = G.random_functions(rng, n_funcs)
     gen = [c for c in models + funcs if has_control_flow(c["proto"]) and depth_of(c["proto"]) <= 2]
-    return feature_cases() + gen, r1 + r2
+    # functions with attribute parameters whose names equal value names (<attr>, <attr>_0, <attr>_1 at every nesting level)
+    from harness import c13_streams as S
+    attrs, r3 = S.attr_nesting_cases(rng, max(4, n_funcs))
+    for c in attrs:
+        c["tie_extra"] = True
+    hand = [dict(c, tie_extra=True) for c in G.attr_conflict_cases()]
+    return feature_cases() + gen + hand + attrs, r1 + r2 + r3
+
+
+# ----------------------------------------------------------------------------------------------- operator text (Export/OpText.v)
+
+def toks_lit(text):
+    """Python tokens of an expression text -> Coq `list tok` literal (Export/OpText.v): NAME, non-negative NUMBER, a
+    bracketed list display as ONE atom (its reading by ast.parse), everything else a symbol."""
+    import io
+    import tokenize
+    toks = [t for t in tokenize.generate_tokens(io.StringIO(text).readline)
+            if t.type not in (tokenize.NEWLINE, tokenize.NL, tokenize.ENDMARKER, tokenize.COMMENT, tokenize.INDENT, tokenize.DEDENT)]
+    out, i = [], 0
+    while i < len(toks):
+        t = toks[i]
+        if t.type == tokenize.NAME:
+            out.append(f"(TName {cstr(t.string)})")
+        elif t.type == tokenize.NUMBER:
+            v = ast.literal_eval(t.string)
+            if isinstance(v, bool) or not isinstance(v, (int, float)):
+                raise ParseError(f"number token {t.string!r}")
+            out.append(f"(TInt {cz(v)})" if isinstance(v, int) else f"(TFloat {cz(f32_bits(v))})")
+        elif t.type == tokenize.OP and t.string == "[":
+            depth, j = 0, i
+            while j < len(toks):
+                depth += toks[j].string == "["
+                depth -= toks[j].string == "]"
+                if depth == 0:
+                    break
+                j += 1
+            if depth != 0 or toks[i].start[0] != toks[j].end[0]:
+                raise ParseError("unbalanced / multi-line list display")
+            seg = text.splitlines()[t.start[0] - 1][t.start[1]:toks[j].end[1]]
+            out.append(f"(TList {expr_lit(ast.parse(seg, mode='eval').body, set())})")
+            i = j
+        elif t.type == tokenize.OP:
+            out.append(f"(TSym {cstr(t.string)})")
+        else:
+            raise ParseError(f"token {t.string!r}")
+        i += 1
+    return clist(out)
+
+
+def operator_lines(code):
+    """every assignment of the generated source whose right-hand side is an operator expression ->
+    [(text of the right-hand side, Coq token list, Coq expr read by ast.parse through expr_lit)]"""
+    rows = []
+    for node in ast.walk(ast.parse(code)):
+        if isinstance(node, ast.Assign) and isinstance(node.value, (ast.BinOp, ast.Compare, ast.UnaryOp)):
+            seg = ast.get_source_segment(code, node.value)
+            # the segment of a parenthesized left operand starts inside the parenthesis: take the text after ` = `
+            line = code.splitlines()[node.lineno - 1]
+            rhs = line.split(" = ", 1)[1].split("  #", 1)[0] if " = " in line and node.lineno == node.end_lineno else seg
+            rows.append((rhs, toks_lit(rhs), expr_lit(node.value, set())))
+    return rows
+
+
+def random_expressions(rng, n):
+    """expression texts over names, non-negative numbers, list displays, parentheses, unary minus and the binary
+    operators of the exporter's table (+ `%`, `!=`); the reading by ast.parse (None for a comparison chain)"""
+    names = ["a", "b", "c", "x1", "nan", "inf"]
+    nums = ["0", "1", "2", "7", "10", "0.5", "2.0", "1e-05", "3.25", "0.0", "1e+20"]
+    lists = ["[1, 2]", "[1, -2, 3]", "[0.5]", "[1.0, -2.5]", "[]", "[-1]"]
+    bins = ["+", "-", "*", "@", "/", "**", "&", "|", ">", "==", "<", ">=", "<=", "!=", "%"]
+
+    def gen(d):
+        r = rng.random()
+        if d <= 0 or r < 0.3:
+            k = rng.random()
+            return rng.choice(names) if k < 0.45 else (rng.choice(nums) if k < 0.85 else rng.choice(lists))
+        if r < 0.42:
+            return "-" + gen(d - 1)
+        if r < 0.55:
+            return "(" + gen(d - 1) + ")"
+        return gen(d - 1) + " " + rng.choice(bins) + " " + gen(d - 1)
+
+    rows = []
+    while len(rows) < n:
+        text = gen(rng.choice([1, 2, 2, 3, 3, 4]))
+        try:
+            tree = ast.parse(text, mode="eval").body
+        except SyntaxError:
+            continue
+        try:
+            want = f"(Some {expr_lit(tree, set())})"
+        except ParseError as e:
+            if "comparison chain" not in str(e):
+                raise
+            want = "None"
+        rows.append((text, toks_lit(text), want))
+    return rows
